@@ -143,6 +143,17 @@ def candidates(fn):
                 n.test.operand.id in ps and \
                 n.body[0].targets[0].id == n.test.operand.id:
             out.append((n, n.test.operand.id, n.body[0].value))
+        elif isinstance(n, ast.If) and not n.orelse and len(n.body) == 1 and \
+                isinstance(n.body[0], ast.Return) and \
+                n.body[0].value is not None and \
+                isinstance(n.test, ast.UnaryOp) and \
+                isinstance(n.test.op, ast.Not) and \
+                isinstance(n.test.operand, ast.Name) and \
+                n.test.operand.id in ps and not any(
+                    isinstance(x, ast.Name) and x.id == n.test.operand.id
+                    for x in ast.walk(n.body[0].value)):
+            # if not p: return D   (the default is the result)
+            out.append((n, n.test.operand.id, n.body[0].value))
     # the parameter must still hold the caller's value at the test
     kept = []
     for n, p, d in out:
@@ -200,7 +211,21 @@ def _call_evidence(program, mname, q, fn, pname):
     """A call in the package that passes a falsy constant for ``pname``."""
     from .namelink import _resolve
     origin = getattr(fn, "_origin", fn)
-    for m2name, m2 in sorted(program.modules.items()):
+
+    def same(d):
+        d0 = getattr(d, "_origin", d)
+        if d0 is origin or d is fn:
+            return True
+        return getattr(d0, "_qualname", None) is not None and \
+            getattr(d0, "_qualname", None) == getattr(origin, "_qualname",
+                                                      "?") and \
+            getattr(getattr(d0, "_module", None), "name", None) == getattr(
+                getattr(origin, "_module", None), "name", "?")
+    from .core import _pristine
+    for m2name in sorted(program.modules):
+        # (a fresh parse: the working trees have calls of new helpers
+        # rewritten by the rules that fetched their callers)
+        m2 = _pristine(program, m2name)
         for c in ast.walk(m2.tree):
             if not isinstance(c, ast.Call):
                 continue
@@ -209,7 +234,7 @@ def _call_evidence(program, mname, q, fn, pname):
             except Exception:
                 d = None
             if d is not None and d.args.kwarg is not None and \
-                    getattr(d, "_origin", d) is not origin and d is not fn:
+                    not same(d):
                 # through a function that hands its **kwargs on to this one
                 # (self._send_scp(..., expected_args=0) -> conn.send_scp(
                 # ..., **kwargs))
@@ -224,8 +249,7 @@ def _call_evidence(program, mname, q, fn, pname):
                                 for c2 in ast.walk(d)):
                     return "%s:%d passes %s for it (through %s)" % (
                         m2name, c.lineno, ast.unparse(a[0]), d.name)
-            if d is None or getattr(d, "_origin", d) is not origin and \
-                    d is not fn:
+            if d is None or not same(d):
                 continue
             try:
                 b = bind(c, d)
@@ -235,6 +259,11 @@ def _call_evidence(program, mname, q, fn, pname):
             if a is not None and _falsy_const(a):
                 return "%s:%d passes %s for it" % (m2name, c.lineno,
                                                    ast.unparse(a))
+            if isinstance(a, ast.Attribute) and a.attr in ("start", "stop"):
+                # a bound of a slice object: 0 is a bound like any other
+                # (x[:0], x[5:0] are empty)
+                return "%s:%d passes the slice bound %s for it, and 0 is a " \
+                    "legal slice bound" % (m2name, c.lineno, ast.unparse(a))
     return None
 
 
@@ -251,6 +280,23 @@ def check(program, modules, domains=None):
         for q, fn in sorted(m.defs.items()):
             if not isinstance(fn, ast.FunctionDef):
                 continue
+            # ``sl.stop or D`` / ``D if not sl.start else ..``: a slice bound
+            # replaced by a default on a truth test - 0 is a bound like any
+            # other (x[:0] is empty, not everything)
+            for n in _own(fn):
+                if isinstance(n, ast.BoolOp) and isinstance(n.op, ast.Or) \
+                        and len(n.values) == 2 and isinstance(
+                            n.values[0], ast.Attribute) and \
+                        n.values[0].attr in ("start", "stop") and \
+                        _value_position(n) and not _falsy_const(n.values[1]):
+                    n_sites += 1
+                    out.append((mname, n, "%s:%s" % (mname, q),
+                                n.values[0].attr,
+                                "%s: '%s' takes the default whenever the "
+                                "slice bound is falsy - also for the bound "
+                                "0, which is a legal bound (x[:0], x[5:0] "
+                                "are empty ranges, not open-ended ones)" % (
+                                    q, ast.unparse(n)[:60])))
             for n, p, d in candidates(fn):
                 n_sites += 1
                 key = ("%s:%s" % (mname, q), p)
